@@ -830,6 +830,8 @@ impl<W: Write> NcRunner<W> {
                         let len = p.encode(&mut buf, t.protocol_id, None).unwrap_or(0);
                         let (b, lab) = Self::mutate(&buf[..len], st);
                         let mut d = w.describe(&b);
+                        // a request whose bytes were changed (other than by padding) no longer carries the token as issued
+                        d["intact"] = json!(lab.is_none() || lab.as_deref() == Some("padded"));
                         d["label"] = json!(lab.unwrap_or_else(|| "crafted".into()));
                         d["org"] = json!("attacker");
                         d["tok"] = json!(gets(st, "t"));
